@@ -432,7 +432,45 @@ def run(ctx):
         if not ok:
             r.violate(key, f"{f.key} enters namespace {nsarg} for a start tag without testing its self-closing flag: after a self-closing tag the simulator stays in that namespace, so text-mode switches (<textarea>, <style>, <script>…), CDATA permission and namespace_uri() differ from a WHATWG parser until a matching end tag happens to follow", f.loc())
 
+    rule_foreign_feedback_table(ctx, idx, T)
+
     ctx.not_decided += ["tree-builder simulation beyond the tables (arbitrary mis-nesting in foreign content)", "hash collisions of LocalNameHash", "full token-boundary equivalence with the WHATWG tokenizer is rule R03.1 (product exploration), reported separately when present"]
     return ("Automaton-level dataflow of the text type over all %d states (every literal transition into a text state and every tag emission), "
             "complete decision tables of the tag predicates and of the ambiguity guard obtained by finite-domain abstract interpretation of the "
             "expanded source over all %d Tag variants + {other, unhashable}, compared with tables transcribed from the HTML specification." % (len(aut.states), len(tags)))
+
+
+def rule_foreign_feedback_table(ctx, idx, T, rid="R03.8"):
+    """complete decision table (namespace x tag) -> {none, leave namespace, request the lexeme} of
+    TreeBuilderSimulator::get_feedback_for_start_tag_in_foreign_content, by finite-domain abstract
+    interpretation of the expanded source, against the table derived from the specification"""
+    r = ctx.rule(rid, "start tags in foreign content: for each of {SVG, MathML} x every Tag variant + {other, unhashable} the simulator leaves the namespace exactly for the break-out tags, asks for the full tag (RequestLexeme: the tag scanner must hand the tag to the lexer, holding its bytes back) exactly for the integration points of that namespace, <font>, and unhashable names in MathML (annotation-xml), and does nothing otherwise", "E-AST (finite-domain abstract interpretation)", floor=150)
+    fc = idx.one("get_feedback_for_start_tag_in_foreign_content", owner="TreeBuilderSimulator")
+    ipe = idx.one("is_integration_point_enter", owner="TreeBuilderSimulator")
+    helpers = {
+        ("method", "leave_ns"): lambda itp, rv, args, env: "LEAVE",
+        ("method", "enter_ns"): lambda itp, rv, args, env: "ENTER",
+        ("method", "is_integration_point_enter"): lambda itp, rv, args, env: itp.call_fn(ipe, args, self_env={"self.current_ns": env.get("self.current_ns")}),
+        "request_lexeme": lambda itp, args, env: "REQUEST",
+    }
+    it = Interp(idx, helpers=helpers)
+    tags = tag_variants(idx)
+    for ns, ips in (("Namespace::Svg", T.SVG_HTML_INTEGRATION_POINTS), ("Namespace::MathML", T.MATHML_TEXT_INTEGRATION_POINTS)):
+        for t in [OTHER, EMPTY] + tags:
+            try:
+                v = it.call_fn(fc, [t], self_env={"self.current_ns": ns})
+            except EngineError as e:
+                raise EngineError(rid + ": " + str(e))
+            got = {"LEAVE": "leave", "REQUEST": "request"}.get(v, "none" if str(v).endswith("TreeBuilderFeedback::None") else repr(v))
+            name = lc(t) if t not in (OTHER, EMPTY) else None
+            if name in T.FOREIGN_BREAKOUT:
+                want = "leave"
+            elif name == "font" or (name in ips) or (t == EMPTY and ns == "Namespace::MathML"):
+                want = "request"
+            else:
+                want = "none"
+            key = "%s|%s" % (ns.split("::")[-1], t)
+            r.inst(key, nontrivial=(want != "none"), sample={"ns": ns, "tag": str(t), "feedback": got} if want != "none" and t in (EMPTY, "Font", "Title", "Mi", "P") else None)
+            if got != want:
+                r.violate(key, f"in {ns.split('::')[-1]} content a <{name or t}> start tag gives `{got}`, specification-derived table says `{want}`" + (": every such tag is handed to the lexer and its bytes are held back until the tag is complete although nothing depends on it" if got == "request" else ""), "src/parser/tree_builder_simulator/mod.rs")
+    r.control(("font" not in T.FOREIGN_BREAKOUT) and ("p" in T.FOREIGN_BREAKOUT), "reference break-out list has <p> but not the conditional <font>")
